@@ -10,13 +10,17 @@
 #include "C17_h264gen.h"    /* g_rnd, sc_pick, tz_pick */
 #include "tape.h"
 
-struct sps265 { bool valid; int nal; int vps_id; bool sep_plane; int addr_bits; };
+struct sps265 { bool valid; int nal; int vps_id; bool sep_plane; int addr_bits;
+    /* VUI (E.2.1) as far as it changes the syntax of the picture timing SEI message */
+    bool vui, frame_field, hrd, sub_pic; int crd_len, dod_len, du_len; };
 struct pps265 { bool valid; int nal; int sps_id; bool dep_slices, out_flag; int extra_bits; };
 struct g265 {
     bool vps_valid[16]; int vps_nal[16]; int vps_subl[16];
     struct sps265 sps[16];
     struct pps265 pps[64];
     uint32_t rnd;
+    int nsps;
+    uint8_t ptl[16][12];        /* general profile, tier and level octets of each VPS (repeated by the SPS) */
 };
 
 static void g265_hdr(uint8_t hdr[2], int type) { hdr[0] = type << 1; hdr[1] = 1; }
@@ -50,6 +54,132 @@ static void g265_ptl(struct rb *w, int max_subl_1, uint8_t a, uint8_t b)
     }
 }
 
+/* 7.3.4 scaling_list_data() */
+static void g265_scaling_list_data(struct rb *w, uint32_t *xs)
+{
+    uint32_t dense = ext_rnd(xs) & 3;       /* how many of the 20 lists are coded coefficient by coefficient */
+    for (int size_id = 0; size_id < 4; size_id++)
+        for (int matrix_id = 0; matrix_id < 6; matrix_id += size_id == 3 ? 3 : 1) {
+            uint32_t r = ext_rnd(xs);
+            bool pred_mode = dense == 3 ? (r & 3) != 0 : dense == 0 ? (r & 15) == 0 : (r & 3) == 0;
+            rb_u(w, 1, pred_mode);          /* scaling_list_pred_mode_flag */
+            if (!pred_mode) {
+                int maxd = size_id == 3 ? matrix_id / 3 : matrix_id;
+                rb_ue(w, (r >> 2) % (maxd + 1));    /* scaling_list_pred_matrix_id_delta */
+            } else {
+                int coef_num = 1 << (4 + (size_id << 1)); if (coef_num > 64) coef_num = 64;
+                int next = 8;
+                if (size_id > 1) { int dc = (int)((r >> 4) % 255) - 7; rb_se(w, dc); next = dc + 8; }   /* scaling_list_dc_coef_minus8 */
+                bool wide = (r & 0x3000) == 0;
+                for (int i = 0; i < coef_num; i++) {
+                    uint32_t q = ext_rnd(xs);
+                    int delta = wide ? (int)(q % 256) - 128 : (int)(q % 9) - 4;
+                    if ((next + delta + 256) % 256 == 0) delta++;   /* ScalingFactor shall be greater than 0 */
+                    if (delta > 127) delta = -128 + 1;
+                    rb_se(w, delta);        /* scaling_list_delta_coef */
+                    next = (next + delta + 256) % 256;
+                }
+            }
+        }
+}
+
+/* E.2.3 sub_layer_hrd_parameters() */
+static void g265_sub_layer_hrd(struct rb *w, uint32_t *xs, int cpb_cnt, bool sub_pic)
+{
+    for (int i = 0; i < cpb_cnt; i++) {
+        uint32_t q = ext_rnd(xs);
+        rb_ue(w, (q & 31) == 31 ? 0xfffffffeu : q % 200000);        /* bit_rate_value_minus1 */
+        rb_ue(w, (q & 0x3e0) == 0x3e0 ? 0xfffffffeu : (q >> 3) % 50000);    /* cpb_size_value_minus1 */
+        if (sub_pic) { rb_ue(w, (q >> 5) % 3000); rb_ue(w, (q >> 7) % 90000); }
+        rb_u(w, 1, (q >> 12) & 1);          /* cbr_flag */
+    }
+}
+
+/* E.2.2 hrd_parameters(1, maxNumSubLayersMinus1) */
+static void g265_hrd(struct rb *w, uint32_t *xs, struct sps265 *s, int subl)
+{
+    uint32_t r = ext_rnd(xs);
+    bool nal = (r & 3) != 0, vcl = (r & 12) == 12 || (r & 3) == 0 && (r & 4);
+    s->sub_pic = false;
+    rb_u(w, 1, nal); rb_u(w, 1, vcl);
+    if (nal || vcl) {
+        s->sub_pic = (r & 0x30) == 0x30;
+        rb_u(w, 1, s->sub_pic);             /* sub_pic_hrd_params_present_flag */
+        s->du_len = 1 + (r >> 20) % 32;
+        if (s->sub_pic) { rb_u(w, 8, (r >> 6) & 0xff); rb_u(w, 5, (r >> 14) % 32); rb_u(w, 1, 0); rb_u(w, 5, s->du_len - 1); }
+        rb_u(w, 4, (r >> 6) & 15); rb_u(w, 4, (r >> 10) & 15);  /* bit_rate_scale, cpb_size_scale */
+        if (s->sub_pic) rb_u(w, 4, (r >> 14) & 15);             /* cpb_size_du_scale */
+        s->crd_len = 1 + (r >> 15) % 32; s->dod_len = 1 + (r >> 9) % 32;
+        rb_u(w, 5, (r >> 3) % 32);          /* initial_cpb_removal_delay_length_minus1 */
+        rb_u(w, 5, s->crd_len - 1);         /* au_cpb_removal_delay_length_minus1 */
+        rb_u(w, 5, s->dod_len - 1);         /* dpb_output_delay_length_minus1 */
+        s->hrd = true;
+    }
+    for (int i = 0; i <= subl; i++) {
+        uint32_t q = ext_rnd(xs);
+        bool fixed_general = q & 1, fixed_cvs = fixed_general || (q & 2), low_delay = false;
+        int cpb_cnt = 1;
+        rb_u(w, 1, fixed_general);
+        if (!fixed_general) rb_u(w, 1, fixed_cvs);
+        if (fixed_cvs) rb_ue(w, (q >> 2) % 2048);   /* elemental_duration_in_tc_minus1 */
+        else { low_delay = (q >> 2) & 1; rb_u(w, 1, low_delay); }
+        if (!low_delay) { cpb_cnt = (q & 0xf00) == 0xf00 ? 32 : 1 + (q >> 4) % 4; rb_ue(w, cpb_cnt - 1); }
+        if (nal) g265_sub_layer_hrd(w, xs, cpb_cnt, s->sub_pic);
+        if (vcl) g265_sub_layer_hrd(w, xs, cpb_cnt, s->sub_pic);
+    }
+}
+
+/* E.2.1 vui_parameters() */
+static void g265_vui(struct es *e, struct rb *w, uint32_t *xs, struct sps265 *s, int subl)
+{
+    uint32_t r = ext_rnd(xs);
+    bool ar = r & 1, overscan = r & 2, signal = r & 4, colour = r & 8, chroma_loc = r & 16, ddw = (r & 0x60) == 0x60;
+    bool timing = (r & 0x180) != 0, hrd = timing && (r & 0x600) != 0, restr = r & 0x1000;
+    rb_u(w, 1, ar);
+    if (ar) {
+        uint32_t q = ext_rnd(xs);
+        int idc = (q & 3) == 0 ? 255 : (q & 3) == 1 ? 17 + (q >> 2) % 200 : 1 + (q >> 2) % 16;
+        rb_u(w, 8, idc);
+        if (idc == 255) { rb_u(w, 16, 1 + (q >> 8) % 4000); rb_u(w, 16, (q >> 4) % 3000); }
+    }
+    rb_u(w, 1, overscan);
+    if (overscan) rb_u(w, 1, (r >> 13) & 1);
+    rb_u(w, 1, signal);
+    if (signal) {
+        rb_u(w, 3, (r >> 14) % 6); rb_u(w, 1, (r >> 17) & 1); rb_u(w, 1, colour);
+        if (colour) { uint32_t q = ext_rnd(xs); rb_u(w, 8, 1 + q % 12); rb_u(w, 8, 1 + (q >> 4) % 18); rb_u(w, 8, (q >> 9) % 15); }
+    }
+    rb_u(w, 1, chroma_loc);
+    if (chroma_loc) { rb_ue(w, (r >> 18) % 6); rb_ue(w, (r >> 21) % 6); }
+    rb_u(w, 1, 0);                          /* neutral_chroma_indication_flag */
+    bool field_seq = (r & 0x6000) == 0x6000;
+    s->frame_field = field_seq || (r & 0x800);
+    rb_u(w, 1, field_seq);                  /* field_seq_flag */
+    rb_u(w, 1, s->frame_field);             /* frame_field_info_present_flag */
+    rb_u(w, 1, ddw);                        /* default_display_window_flag */
+    if (ddw) { rb_ue(w, 0); rb_ue(w, (r >> 3) % 5); rb_ue(w, 1); rb_ue(w, (r >> 7) % 5); }
+    rb_u(w, 1, timing);                     /* vui_timing_info_present_flag */
+    if (timing) {
+        uint32_t q = ext_rnd(xs);
+        static const uint32_t ticks[] = { 1, 1001, 1000, 3600, 0x01000001u, 90000, 2, 125 };
+        static const uint32_t scales[] = { 50, 60000, 48000, 90000, 0xfffffffeu, 27000000, 25, 30000 };
+        rb_u(w, 32, ticks[q % 8]); rb_u(w, 32, scales[(q >> 3) % 8]);
+        bool poc_prop = (q >> 6) & 1;
+        rb_u(w, 1, poc_prop);               /* vui_poc_proportional_to_timing_flag */
+        if (poc_prop) rb_ue(w, (q >> 7) % 4);
+        rb_u(w, 1, hrd);                    /* vui_hrd_parameters_present_flag */
+        if (hrd) { g265_hrd(w, xs, s, subl); e->has_hrd = true; }
+        e->has_timing = true;
+    }
+    rb_u(w, 1, restr);                      /* bitstream_restriction_flag */
+    if (restr) {
+        uint32_t q = ext_rnd(xs);
+        rb_u(w, 1, q & 1); rb_u(w, 1, 1); rb_u(w, 1, (q >> 1) & 1);
+        rb_ue(w, (q >> 2) % 4096); rb_ue(w, (q >> 5) % 17); rb_ue(w, (q >> 9) % 17); rb_ue(w, (q >> 13) % 16); rb_ue(w, (q >> 17) % 16);
+    }
+    e->has_vui = true;
+}
+
 static void g265_vps(struct es *e, struct g265 *g, struct tape *t, int id)
 {
     uint8_t a = tp_u8(t), b = tp_u8(t);
@@ -62,7 +192,7 @@ static void g265_vps(struct es *e, struct g265 *g, struct tape *t, int id)
     rb_u(&w, 3, subl);
     rb_u(&w, 1, 1);                         /* vps_temporal_id_nesting_flag */
     rb_u(&w, 16, 0xffff);
-    g265_ptl(&w, subl, a, b);
+    { size_t at = w.bits / 8; g265_ptl(&w, subl, a, b); memcpy(g->ptl[id], w.b + at, 12); }
     rb_u(&w, 1, 0);                         /* vps_sub_layer_ordering_info_present_flag */
     rb_ue(&w, 4); rb_ue(&w, 2); rb_ue(&w, 0);
     rb_u(&w, 6, 0);                         /* vps_max_layer_id */
@@ -73,7 +203,7 @@ static void g265_vps(struct es *e, struct g265 *g, struct tape *t, int id)
     uint8_t hdr[2], x = tp_u8(t); g265_hdr(hdr, 32);
     struct nalrec *r = es_nal(e, 32, sc_pick(x, true), hdr, 2, &w, tz_pick(x));
     if (!r) return;
-    r->id = id;
+    r->id = id; r->subl = subl;
     g->vps_valid[id] = true; g->vps_nal[id] = e->nnal - 1;
     /* remember the PTL choices so that the SPS repeats them */
     r->ref_id = a | (b << 8);
@@ -85,6 +215,9 @@ static void g265_sps(struct es *e, struct g265 *g, struct tape *t, int id, int v
     uint8_t a = tp_u8(t), b = tp_u8(t), c = tp_u8(t);
     int subl = g->vps_subl[vps_id];
     int ptl = e->nal[g->vps_nal[vps_id]].ref_id;
+    s->vui = s->frame_field = s->hrd = s->sub_pic = false;
+    uint32_t xs = ext_seed(g->nsps++);
+    uint32_t xo = xs ? ext_rnd(&xs) : 0;    /* bit 0: scaling_list_data, bits 1-2: VUI */
     struct rb w; rb_init(&w);
     rb_u(&w, 4, vps_id);
     rb_u(&w, 3, subl);
@@ -112,9 +245,10 @@ static void g265_sps(struct es *e, struct g265 *g, struct tape *t, int id, int v
     rb_ue(&w, ctb_diff);                    /* log2_diff_max_min_luma_coding_block_size */
     rb_ue(&w, 0); rb_ue(&w, 2 + ctb_diff > 3 ? 3 : 2);  /* transform block sizes */
     rb_ue(&w, 1); rb_ue(&w, 1);             /* max_transform_hierarchy_depth_inter / intra */
-    bool scl = (c & 0x40) != 0;
+    bool scl = (c & 0x40) != 0 || (xo & 1);
     rb_u(&w, 1, scl);                       /* scaling_list_enabled_flag */
-    if (scl) rb_u(&w, 1, 0);                /* sps_scaling_list_data_present_flag */
+    if (scl) rb_u(&w, 1, xo & 1);           /* sps_scaling_list_data_present_flag */
+    if (xo & 1) { g265_scaling_list_data(&w, &xs); e->has_scaling = true; }
     rb_u(&w, 1, 1); rb_u(&w, 1, 1);         /* amp_enabled_flag, sample_adaptive_offset_enabled_flag */
     bool pcm = (c & 0x80) != 0;
     rb_u(&w, 1, pcm);
@@ -141,13 +275,15 @@ static void g265_sps(struct es *e, struct g265 *g, struct tape *t, int id, int v
     rb_u(&w, 1, lt);                        /* long_term_ref_pics_present_flag */
     if (lt) { rb_ue(&w, 1); rb_u(&w, log2_poc, 3); rb_u(&w, 1, 1); }
     rb_u(&w, 1, 1); rb_u(&w, 1, 0);         /* sps_temporal_mvp_enabled_flag, strong_intra_smoothing_enabled_flag */
-    rb_u(&w, 1, 0);                         /* vui_parameters_present_flag */
+    s->vui = (xo & 6) != 0;
+    rb_u(&w, 1, s->vui);                    /* vui_parameters_present_flag */
+    if (s->vui) g265_vui(e, &w, &xs, s, subl);
     rb_u(&w, 1, 0);                         /* sps_extension_present_flag */
     rb_trailing(&w);
     uint8_t hdr[2], x = tp_u8(t); g265_hdr(hdr, 33);
     struct nalrec *r = es_nal(e, 33, sc_pick(x, true), hdr, 2, &w, tz_pick(x));
     if (!r) return;
-    r->id = id; r->ref_id = vps_id;
+    r->id = id; r->ref_id = vps_id; r->chroma = chroma; r->depth = (a & 0x20) ? 2 : 0; r->subl = subl;
     int ctb = 8 << ctb_diff;
     int nctb = ((width + ctb - 1) / ctb) * ((height + ctb - 1) / ctb);
     s->addr_bits = 0; while ((1 << s->addr_bits) < nctb) s->addr_bits++;
@@ -300,6 +436,17 @@ static void g265_stream(struct es *e, struct tape *t)
                 int n = 16 + tp_u8(t) % 24;
                 rb_u(&w, 8, 5); rb_u(&w, 8, n);
                 for (int i = 0; i < n; i++) { uint32_t r = g_rnd(&g.rnd); rb_u(&w, 8, (r & 0x100) ? r & 0xff : 0); }
+            } else if (sei == 2 && g.sps[cur_sps].vui) {    /* pic_timing (D.2.3) as the VUI of the SPS shapes it */
+                const struct sps265 *s = &g.sps[cur_sps];
+                struct rb p; rb_init(&p);
+                if (s->frame_field) { rb_u(&p, 4, psel % 13); rb_u(&p, 2, 1); rb_u(&p, 1, 0); }
+                if (s->hrd) {
+                    rb_u(&p, s->crd_len, g_rnd(&g.rnd)); rb_u(&p, s->dod_len, g_rnd(&g.rnd) % 5);
+                    if (s->sub_pic) rb_u(&p, s->du_len, g_rnd(&g.rnd) % 5);    /* pic_dpb_output_du_delay */
+                }
+                if (p.bits % 8) rb_trailing(&p);
+                rb_u(&w, 8, 1); rb_u(&w, 8, p.bits / 8);
+                for (size_t i = 0; i < p.bits / 8; i++) rb_u(&w, 8, p.b[i]);
             } else if (sei == 2) {  /* pic_timing: pic_struct, source_scan_type, duplicate_flag (no HRD) */
                 rb_u(&w, 8, 1); rb_u(&w, 8, 1);
                 rb_u(&w, 4, psel % 13); rb_u(&w, 2, 1); rb_u(&w, 1, 0); rb_u(&w, 1, 1);
